@@ -80,3 +80,80 @@ type Uint64 struct{ v real.Uint64 }
 func (b *Uint64) Load() uint64        { vs.AtomicPoint(unsafe.Pointer(b), 8, false); return b.v.Load() }
 func (b *Uint64) Store(x uint64)      { vs.AtomicPoint(unsafe.Pointer(b), 8, true); b.v.Store(x) }
 func (b *Uint64) Add(x uint64) uint64 { vs.AtomicPoint(unsafe.Pointer(b), 8, true); return b.v.Add(x) }
+
+func (b *Bool) Swap(x bool) bool { vs.AtomicPoint(unsafe.Pointer(b), 1, true); return b.v.Swap(x) }
+func (b *Bool) CompareAndSwap(o, n bool) bool {
+	vs.AtomicPoint(unsafe.Pointer(b), 1, true)
+	return b.v.CompareAndSwap(o, n)
+}
+func (b *Int32) Swap(x int32) int32 { vs.AtomicPoint(unsafe.Pointer(b), 4, true); return b.v.Swap(x) }
+func (b *Int32) CompareAndSwap(o, n int32) bool {
+	vs.AtomicPoint(unsafe.Pointer(b), 4, true)
+	return b.v.CompareAndSwap(o, n)
+}
+func (b *Uint32) Swap(x uint32) uint32 { vs.AtomicPoint(unsafe.Pointer(b), 4, true); return b.v.Swap(x) }
+func (b *Uint32) CompareAndSwap(o, n uint32) bool {
+	vs.AtomicPoint(unsafe.Pointer(b), 4, true)
+	return b.v.CompareAndSwap(o, n)
+}
+func (b *Int64) Swap(x int64) int64 { vs.AtomicPoint(unsafe.Pointer(b), 8, true); return b.v.Swap(x) }
+func (b *Int64) CompareAndSwap(o, n int64) bool {
+	vs.AtomicPoint(unsafe.Pointer(b), 8, true)
+	return b.v.CompareAndSwap(o, n)
+}
+func (b *Uint64) Swap(x uint64) uint64 { vs.AtomicPoint(unsafe.Pointer(b), 8, true); return b.v.Swap(x) }
+func (b *Uint64) CompareAndSwap(o, n uint64) bool {
+	vs.AtomicPoint(unsafe.Pointer(b), 8, true)
+	return b.v.CompareAndSwap(o, n)
+}
+
+// Pointer is sync/atomic.Pointer with every operation a scheduling point.
+type Pointer[T any] struct{ v real.Pointer[T] }
+
+func (p *Pointer[T]) Load() *T   { vs.AtomicPoint(unsafe.Pointer(p), 8, false); return p.v.Load() }
+func (p *Pointer[T]) Store(x *T) { vs.AtomicPoint(unsafe.Pointer(p), 8, true); p.v.Store(x) }
+func (p *Pointer[T]) Swap(x *T) *T {
+	vs.AtomicPoint(unsafe.Pointer(p), 8, true)
+	return p.v.Swap(x)
+}
+func (p *Pointer[T]) CompareAndSwap(o, n *T) bool {
+	vs.AtomicPoint(unsafe.Pointer(p), 8, true)
+	return p.v.CompareAndSwap(o, n)
+}
+
+// Value is sync/atomic.Value.
+type Value struct{ v real.Value }
+
+func (a *Value) Load() any   { vs.AtomicPoint(unsafe.Pointer(a), 8, false); return a.v.Load() }
+func (a *Value) Store(x any) { vs.AtomicPoint(unsafe.Pointer(a), 8, true); a.v.Store(x) }
+func (a *Value) Swap(x any) any {
+	vs.AtomicPoint(unsafe.Pointer(a), 8, true)
+	return a.v.Swap(x)
+}
+func (a *Value) CompareAndSwap(o, n any) bool {
+	vs.AtomicPoint(unsafe.Pointer(a), 8, true)
+	return a.v.CompareAndSwap(o, n)
+}
+
+type Uintptr struct{ v real.Uintptr }
+
+func (b *Uintptr) Load() uintptr         { vs.AtomicPoint(unsafe.Pointer(b), 8, false); return b.v.Load() }
+func (b *Uintptr) Store(x uintptr)       { vs.AtomicPoint(unsafe.Pointer(b), 8, true); b.v.Store(x) }
+func (b *Uintptr) Add(x uintptr) uintptr { vs.AtomicPoint(unsafe.Pointer(b), 8, true); return b.v.Add(x) }
+
+func LoadPointer(a *unsafe.Pointer) unsafe.Pointer {
+	vs.AtomicPoint(unsafe.Pointer(a), 8, false)
+	return real.LoadPointer(a)
+}
+func StorePointer(a *unsafe.Pointer, v unsafe.Pointer) {
+	vs.AtomicPoint(unsafe.Pointer(a), 8, true)
+	real.StorePointer(a, v)
+}
+func SwapUint64(a *uint64, v uint64) uint64 {
+	vs.AtomicPoint(unsafe.Pointer(a), 8, true)
+	return real.SwapUint64(a, v)
+}
+func SwapInt64(a *int64, v int64) int64 {
+	vs.AtomicPoint(unsafe.Pointer(a), 8, true)
+	return real.SwapInt64(a, v)
+}
